@@ -24,9 +24,10 @@ PickCase == /\ ph = "start" /\ chunk # -1
                         /\ Setup(x, Kern(kn, x), p)
             /\ UNCHANGED chunk
 MCSplit == ph = "loop" /\ (\E fs \in FeatureSubsets : \E c \in CandsNow(fs) : SplitStep(fs, c)) /\ UNCHANGED chunk
+MCZeroSplit == ph = "loop" /\ (\E fs \in FeatureSubsets : \E c \in CandsNow(fs) : ZeroGainSplit(fs, c)) /\ UNCHANGED chunk
 MCNoGain == ph = "loop" /\ (\E fs \in FeatureSubsets : NoGainStep(fs)) /\ UNCHANGED chunk
 MCFinish == ph = "loop" /\ Finish /\ UNCHANGED chunk
-Next == PickChunk \/ PickCase \/ MCSplit \/ MCNoGain \/ MCFinish
+Next == PickChunk \/ PickCase \/ MCSplit \/ MCZeroSplit \/ MCNoGain \/ MCFinish
 
 (* the fit always terminates: no behaviour can take more than N split steps *)
 Terminates == Len(gains) <= N - 1
